@@ -12,6 +12,18 @@ NOTE = ('Trusted base: python-engineio, asyncio, threading, json/msgpack/'
         'not proof: a clean batch is evidence for the explored seeds.')
 
 CHECKS = {
+    'C02': ('DESIGN 4/C02',
+            'Seeded search over the configuration grid {Server+Client, '
+            'AsyncServer+AsyncClient} x {default, msgpack} x {websocket / '
+            'base64 text framing} x 1-3 namespaces x {function handlers, '
+            'class-based namespaces} x {sync, coroutine}: real client stack '
+            'talks to real server stack (real engine.io on both sides) over '
+            'the simulated pipe with latency jitter and back-pressure; per '
+            'direction a single sender issues up to N emit/send/call '
+            'messages with generated event names, JSON+bytes payloads and '
+            'handler return values; oracle = per-message expected argument '
+            'list under typed deep equality, per-pair FIFO, callback and '
+            'call() result shaping.'),
     'C03': ('DESIGN 4/C03',
             'Seeded search over histories of room operations, lifecycle '
             'events and emits (to = None / room / list / sid, skip_sid = None '
